@@ -155,9 +155,9 @@ TEXT.update({
                     'them. Kani proves on the real files (nix read/write stubbed): for every u16 that is a known key code and press/release, send writes once, 48 bytes, [16 zero bytes | EV_KEY | code | 1 or 0][24 zero bytes]; the empty '
                     'batch is one SYN record; a two-event batch puts record i at offset 24 i with one SYN at the end; next returns exactly the EV_KEY value-0/1 known-code records and skips every other 24-byte record '
                     '(value 2, other types, unknown codes; all four branches covered). These run in the thorough tier (about 35 min) and are recorded per content hash. Every run (quick too) executes the same checks natively '
-                    'and exhaustively over all 484 codes through a real pipe, plus random batches of up to 39 events and the writer-reader round trip.'),
+                    'and exhaustively over all 484 codes through a real pipe, plus one batch of every length 0..=256 (and 512, 1024, 2000), random batches of up to 39 events and the writer-reader round trip.'),
         design_ref='6.18',
-        level_note=('Trusted: rustc, Kani, CBMC; the read/write stubs; libc::input_event layout on x86-64. Bounded: batch length (0, 1, 2 in Kani; random < 40 natively). The quick tier decides with the exhaustive native enumeration '
+        level_note=('Trusted: rustc, Kani, CBMC; the read/write stubs; libc::input_event layout on x86-64. Bounded: batch length (0, 1, 2 in Kani; natively every length 0..=256 plus 512, 1024, 2000 with one content each, random contents for lengths < 40). The quick tier decides with the exhaustive native enumeration '
                     'and reports whether a Kani run is recorded for exactly this source text.')),
 })
 
